@@ -8,7 +8,7 @@ import "fmt"
 // correctly - never silently wrong.
 
 // LimitKinds lists the generated shapes.
-var LimitKinds = []string{"locals", "params", "free", "free-returned", "free-nested", "selectors", "array-literal"}
+var LimitKinds = []string{"locals", "params", "free", "free-returned", "free-nested", "selectors", "array-literal", "long-if", "long-loop", "long-logical"}
 
 // LimitSizes are the boundary sizes per kind.
 func LimitSizes(kind string) []int {
@@ -19,6 +19,9 @@ func LimitSizes(kind string) []int {
 		return []int{253, 254, 255, 256, 257}
 	case "free", "free-returned", "free-nested":
 		return []int{254, 255, 256, 257}
+	case "long-if", "long-loop", "long-logical":
+		// number of filler statements (9 bytes of code each: 7000 stays below offset 65536, 9000 goes beyond): jump operands below and beyond 16 bits
+		return []int{7000, 9000}
 	case "selectors":
 		return []int{254, 255, 256, 257}
 	case "array-literal":
@@ -86,6 +89,33 @@ func Limits(kind string, n int) *Program {
 		}
 		body = append(body, &Return{X: inner})
 		return &Program{Main: []Stmt{Def("f", &FuncLit{Body: body}), Def("out", call)}}
+	case "long-if", "long-loop", "long-logical":
+		// one function whose code is longer than 64 KiB with jumps whose targets lie beyond offset 65535:
+		// forward over the filler (if / && / ||), and a loop that starts after the filler (backward jump)
+		filler := func() []Stmt {
+			var out []Stmt
+			for i := 0; i < n; i++ {
+				out = append(out, Set(I("x"), B("+", I("x"), N("1"))))
+			}
+			return out
+		}
+		var body []Stmt
+		body = append(body, Def("x", N("0")))
+		switch kind {
+		case "long-if":
+			body = append(body, &If{Cond: I("c"), Then: filler(), Else: []Stmt{Set(I("x"), N("-5"))}},
+				&If{Cond: &Un{Op: "!", X: I("c")}, Then: filler()})
+		case "long-loop":
+			body = append(body, filler()...)
+			body = append(body, &For{Init: Def("i", N("0")), Cond: B("<", I("i"), N("3")), Post: &IncDec{X: I("i"), Op: "++"},
+				Body: []Stmt{&If{Cond: B("==", I("i"), N("1")), Then: []Stmt{&Continue{}}}, Set(I("x"), B("+", I("x"), N("100")))}})
+		case "long-logical":
+			body = append(body, filler()...)
+			body = append(body, Def("y", B("||", B("&&", I("c"), B(">", I("x"), N("1"))), N("7"))), Set(I("x"), &ArrayLit{Elems: []Expr{I("x"), I("y")}}))
+		}
+		body = append(body, &Return{X: I("x")})
+		return &Program{Main: []Stmt{Def("f", &FuncLit{Params: []string{"c"}, Body: body}),
+			Def("out", &ArrayLit{Elems: []Expr{C(I("f"), True()), C(I("f"), False())}}), Set(I("f"), Undef())}}
 	case "selectors":
 		// m := {}; cur := m; build a chain of n nested maps, then assign through the whole chain
 		main := []Stmt{Def("m", &MapLit{}), Def("cur", I("m"))}
